@@ -35,22 +35,25 @@ def derivative(poly: PolyLike, *diffvars: Union[ndpoly, str, int]) -> ndpoly:
 
     """
     poly = poly_ref = numpoly.aspolynomial(poly)
+    names = poly.names
 
     for diffvar in diffvars:
         if isinstance(diffvar, str):
             idx = poly.names.index(diffvar)
         elif isinstance(diffvar, int):
-            idx = diffvar
+            # positions refer to the indeterminants of the argument as passed;
+            # the names of the intermediate result may have been re-sorted
+            idx = poly.names.index(names[diffvar])
         else:
             diffvar = numpoly.aspolynomial(diffvar)
             # only terms that are actually present designate the variable
             nonzero = [bool(numpy.any(coeff)) for coeff in diffvar.coefficients]
-            exponents, names = numpoly.remove_redundant_names(
+            exponents, diffnames = numpoly.remove_redundant_names(
                 diffvar.exponents[nonzero], diffvar.names
             )
-            assert names is not None and len(names) == 1, "one at the time"
+            assert diffnames is not None and len(diffnames) == 1, "one at the time"
             assert numpy.all(exponents == 1), "derivative variable assumes singletons"
-            idx = poly.names.index(names[0])
+            idx = poly.names.index(diffnames[0])
 
         exponents = poly.exponents
         coefficients = [
